@@ -8,10 +8,12 @@ import (
 	"io"
 	"os"
 	"path/filepath"
+	"sync"
 	"sync/atomic"
 	"testing"
 	"time"
 
+	"github.com/algorand/go-deadlock"
 	"pgregory.net/rapid"
 
 	"github.com/algorand/go-algorand/agreement"
@@ -106,6 +108,7 @@ type engcTB interface {
 }
 
 var engcWorldSeq atomic.Uint64
+var engcInitOnce sync.Once
 
 func engcLogger() logging.Logger {
 	lg := logging.NewLogger()
@@ -129,7 +132,14 @@ func engcDrawCfg(t *rapid.T, name string) config.Local {
 	cfg := config.GetDefaultLocal()
 	cfg.MaxAcctLookback = uint64(rapid.IntRange(1, 8).Draw(t, name+".MaxAcctLookback"))
 	cfg.Archival = rapid.Bool().Draw(t, name+".Archival")
-	cfg.DisableLedgerLRUCache = rapid.IntRange(0, 3).Draw(t, name+".LRU") == 0
+	// every open/reload with the LRU caches enabled allocates ~60 MB (100000-entry buffers): keep it to half the worlds
+	cfg.DisableLedgerLRUCache = rapid.Bool().Draw(t, name+".noLRU")
+	// the verified-transaction cache is sized max(VerifiedTranscationsCacheSize, TxPoolSize) entries on every open
+	cfg.TxPoolSize = 100
+	cfg.VerifiedTranscationsCacheSize = 100
+	// no fsync: power-loss durability is not a subject of Engine C and full sync makes on-disk histories 50x slower
+	cfg.LedgerSynchronousMode = 0
+	cfg.AccountsRebuildSynchronousMode = 0
 	return cfg
 }
 
@@ -145,6 +155,12 @@ func engcAddr(tag byte, i int) basics.Address {
 // tb is the enclosing *testing.T (used only for infrastructure); all randomness comes from t.
 // The caller must `defer w.Close()`.
 func engcNewWorld(tb testing.TB, t *rapid.T, opts engcOpts) *engcWorld {
+	engcInitOnce.Do(func() {
+		// go-deadlock's detector (stack capture on every Lock, and a 30 s lock-wait watchdog that exits the process) is
+		// off in production nodes unless configured; on a loaded test machine it only adds cost and a flake risk.
+		// Set once, before the first ledger of this process exists (no goroutine is reading it).
+		deadlock.Opts.Disable = true
+	})
 	w := &engcWorld{tb: tb, Opts: opts}
 	w.CV = opts.Proto
 	if w.CV == "" {
@@ -367,6 +383,11 @@ func (n *engcNode) OpSetParked(parked bool) {
 		n.unpark()
 	}
 	n.w.tracef("%s parked=%v", n.Name, parked)
+}
+
+// ReloadBudgetLeft: with the LRU caches enabled every reload/reopen costs ~0.4 s CPU; checks use this to cap them.
+func (n *engcNode) ReloadBudgetLeft() bool {
+	return n.Cfg.DisableLedgerLRUCache || n.Reloads+n.Reopens < 3
 }
 
 // OpReload runs Ledger.reloadLedger() (trackers closed, re-initialised from the DB, blocks replayed).
